@@ -26,7 +26,7 @@ Definition varr_eqb : varr -> varr -> bool := pair_eqb (list_eqb Nat.eqb) zs_eqb
 Definition obs_eqb : obs_t -> obs_t -> bool := list_eqb zs_eqb.
 Definition info_eqb : info_t -> info_t -> bool := list_eqb (pair_eqb Nat.eqb Z.eqb).
 
-Definition info_keys : list nat := [0; 1].
+Definition info_keys : list nat := [0; 1; 2].
 Definition vinfo_eqb (agents : list nat) (a b : vinfo) : bool :=
   dict_eqm (dict_eqm (pair_eqb zs_eqb bs_eqb) info_keys) agents (fst a) (fst b)
   && dict_eqm bs_eqb agents (snd a) (snd b)
@@ -57,10 +57,10 @@ Fixpoint check_steps (k : okind) (agents : list nat) (Es : list senv) (st : vsta
 
 (* a whole run: reset(seed) then the steps; [counters] = (episode number, t) of every sub-environment
    at the end, read from the worker processes *)
-Definition check_vec (k : okind) (agents : list nat) (Es : list senv) (seed : option Z)
+Definition check_vec (k : okind) (agents : list nat) (Es : list senv) (seed : seedspec) (opt : option Z)
            (oreset : dict (list varr) * vinfo) (steps : list (dict (list Z) * ostep))
            (counters : list (nat * nat)) : bool :=
-  let '(st, (o, vi)) := vec_reset k agents Es (vec_init k agents Es) seed in
+  let '(st, (o, vi)) := vec_reset k agents Es (vec_init k agents Es) seed opt in
   vobs_eqb agents o (fst oreset) && vinfo_eqb agents vi (snd oreset)
   && check_steps k agents Es st steps counters.
 
@@ -77,7 +77,7 @@ Fixpoint check_wsteps (E : senv) (s : sstate) (steps : list (list Z * trans)) (c
       let '(s', o) := wrapper_step E s acts in trans_eqb o ob && check_wsteps E s' rest counter
   end.
 
-Definition check_wrapper (E : senv) (seed : option Z) (oreset : dict obs_t * dict info_t)
+Definition check_wrapper (E : senv) (seed : rarg) (oreset : dict obs_t * dict info_t)
            (steps : list (list Z * trans)) (counter : nat * nat) : bool :=
   let '(s, (o, i)) := env_reset E init_state seed in
   dict_eqb obs_eqb o (fst oreset) && dict_eqb info_eqb i (snd oreset) && check_wsteps E s steps counter.
